@@ -292,7 +292,8 @@ pub fn run(args: &Args, rep: &mut Report) {
             // start allocating above cluster 0x10000 so that the high word of first-cluster fields is in play
             if let Ok(g) = crate::fatck::geo_of(&img) {
                 if g.max_cluster() > 0x1_0010 {
-                    let hint = 0x1_0000 + rng.below(g.max_cluster() - 0x1_0000) as u32;
+                    // (one time in three right at / just below the boundary, so that objects start exactly on cluster 0x10000)
+                    let hint = if rng.chance(1, 3) { 0x1_0000 - rng.below(4) as u32 } else { 0x1_0000 + rng.below(g.max_cluster() - 0x1_0000) as u32 };
                     img.set_u32(g.fsinfo_sector * g.bps + 492, hint);
                 }
             }
@@ -306,6 +307,25 @@ pub fn run(args: &Args, rep: &mut Report) {
                 // serial number is valid, 0x00: no extended fields at all)
                 if rng.chance(1, 3) {
                     img.set_u8(g.status_off + 1, *rng.pick(&[0x28u8, 0x00, 0x29]));
+                }
+            }
+        }
+        if args.flag("statusbits") && rng.chance(1, 4) {
+            // other systems record an unclean shutdown / a disk error in the second FAT entry (FAT16: bits 15/14,
+            // FAT32: bits 27/26, 0 = dirty / error); the boot-sector byte still has to bracket this library's changes
+            if let Ok(g) = crate::fatck::geo_of(&img) {
+                if g.fat_bits != 12 {
+                    let clear: u32 = *rng.pick(&[1u32, 2, 3]);
+                    for c in 0..g.nfats {
+                        let off = g.fat_off(c) + if g.fat_bits == 16 { 2 } else { 4 };
+                        if g.fat_bits == 16 {
+                            let v = img.u16(off) & !((clear as u16) << 14);
+                            img.set_u16(off, v);
+                        } else {
+                            let v = img.u32(off) & !(clear << 26);
+                            img.set_u32(off, v);
+                        }
+                    }
                 }
             }
         }
